@@ -325,7 +325,8 @@ def rand_import(rng, mods, m, mode):
         # an __init__ binds what it imports into the package's name space; chains of such bindings between packages
         # make Python's result depend on the order of execution, so a package only takes attributes of plain modules
         plain = [x for x in others if not x["pkg"]]
-        inside = [x for x in plain if x["path"][:len(P) - 1] == P[:-1] and len(x["path"]) >= len(P)] if len(P) >= 1 else []
+        up = len(P) - 1 if len(P) >= 2 else len(P)      # a top-level package cannot reach above itself
+        inside = [x for x in plain if x["path"][:up] == P[:up] and len(x["path"]) > up]
         if r < 0.4 or not inside:
             t = rng.choice(others)["path"]
             if not abs_safe(mods, P, t):
@@ -404,6 +405,8 @@ def random_project(rng, mode):
                 if a["kind"] == b["kind"] == "abs" and (a["tc"], a["pos"], a["tc_else"]) == (b["tc"], b["pos"], b["tc_else"]):
                     a["join_next"] = True                    # import x, y as z on one line
                     break
+        if m["pkg"] and m["all"] and mode != "allhide":
+            m["all"] = sorted(set(m["all"]) | set(bound_in_init(mods, m["path"])))     # __all__ lists every re-exported name
         m["abstract"] = rng.choice([0, 0, 0, 1, 2, 3])
         m["extra_public"] = rng.choice([0, 0, 1, 2])
     return mods
